@@ -43,12 +43,11 @@ func TestC13Child(t *testing.T) {
 		return
 	}
 	werr := error(nil)
-	n := atoi("VERIF_C13_CHUNKS")
-	if n < 1 {
-		n = 1
-	}
-	for k := 0; k < n && werr == nil; k++ {
-		_, werr = f.Write(body[len(body)*k/n : len(body)*(k+1)/n])
+	for _, cut := range c13Splits(len(body), atoi("VERIF_C13_CHUNKS")) {
+		if werr != nil {
+			break
+		}
+		_, werr = f.Write(body[cut[0]:cut[1]])
 	}
 	cerr := f.Close()
 	switch {
@@ -127,6 +126,52 @@ func c13Dir() string {
 }
 
 // c13Make writes the entry through the real API (once per body configuration) and records the images.
+// c13Splits: how the body is handed to Write. chunks >= 1: that many equal pieces. Negative values are uneven
+// patterns: -1 a 19-byte piece then the rest; -2 all but 19 bytes then the rest; -3 seven single bytes then the rest;
+// -4 pieces of 1, 2, 4, 8, ... bytes; -5 pieces of 4096 bytes with a short first piece of 7; -6 300 bytes, then a
+// piece of exactly 65536 bytes, then the rest.
+func c13Splits(n, chunks int) [][2]int {
+	var sizes []int
+	switch chunks {
+	case -1:
+		sizes = []int{19}
+	case -2:
+		sizes = []int{n - 19}
+	case -3:
+		sizes = []int{1, 1, 1, 1, 1, 1, 1}
+	case -4:
+		for k := 1; k < n; k *= 2 {
+			sizes = append(sizes, k)
+		}
+	case -5:
+		sizes = []int{7}
+		for k := 7; k+4096 < n; k += 4096 {
+			sizes = append(sizes, 4096)
+		}
+	case -6:
+		sizes = []int{300, 65536}
+	default:
+		if chunks < 1 {
+			chunks = 1
+		}
+		var out [][2]int
+		for k := 0; k < chunks; k++ {
+			out = append(out, [2]int{n * k / chunks, n * (k + 1) / chunks})
+		}
+		return out
+	}
+	var out [][2]int
+	pos := 0
+	for _, sz := range sizes {
+		if sz <= 0 || pos+sz > n {
+			break
+		}
+		out = append(out, [2]int{pos, pos + sz})
+		pos += sz
+	}
+	return append(out, [2]int{pos, n})
+}
+
 func c13Make(c c13Case) (*c13Entry, *Violation) {
 	key := fmt.Sprintf("%s/%d/%d/%d/%d", c.Body, c.Len, c.Seed, c.Chunks, c.Level)
 	if e, ok := c13Cache[key]; ok {
@@ -145,12 +190,8 @@ func c13Make(c c13Case) (*c13Entry, *Violation) {
 			v = viol("create", "CreateLevel failed: %v", err)
 			return
 		}
-		n := c.Chunks
-		if n < 1 {
-			n = 1
-		}
-		for k := 0; k < n; k++ {
-			lo, hi := len(body)*k/n, len(body)*(k+1)/n
+		for _, cut := range c13Splits(len(body), c.Chunks) {
+			lo, hi := cut[0], cut[1]
 			if _, err := f.Write(body[lo:hi]); err != nil {
 				v = viol("write", "Write failed: %v", err)
 				return
@@ -396,8 +437,35 @@ func TestC13(t *testing.T) {
 	for _, b := range bodies {
 		for _, level := range levels {
 			for _, seed := range seeds {
-				for _, chunks := range []int{1, 3} {
+				for _, chunks := range []int{1, 3, -1, -2, -3, -4, -5, -6} {
 					base := c13Case{Body: b.kind, Len: b.n, Seed: seed, Chunks: chunks, Level: level}
+					if chunks < 0 {
+						// uneven write patterns: what was written must come back (and the unfinished images must not open);
+						// the byte-level fault sweep is done for the even patterns
+						if level != levels[0] || seed != seeds[0] {
+							continue
+						}
+						ent, v := c13Make(base)
+						if v != nil {
+							t.Errorf("VIOLATION C13/setup [%s]: %s", v.Kind, v.Msg)
+							writeFail("C13", "fault-enumeration", mustJSON(base), v)
+							st.Violations++
+							return
+						}
+						none := base
+						none.Fault = "none"
+						if !e.try(none) {
+							return
+						}
+						for k := range ent.live {
+							live := base
+							live.Fault, live.Off = "live", k
+							if !e.try(live) {
+								return
+							}
+						}
+						continue
+					}
 					ent, v := c13Make(base)
 					if v != nil {
 						t.Errorf("VIOLATION C13/setup [%s]: %s", v.Kind, v.Msg)
